@@ -747,6 +747,7 @@ def build_and_run(n: int, spec: list, m: int, edges: list, cfgs: list) -> str | 
     return run_all(circ, m, edges, cfgs)
 
 
+@rt.natively
 def _body(ebits: list, xs: list, cs: list) -> bool:
     rt.begin()
     S = rt.SHARD
